@@ -29,6 +29,7 @@ Definition exact_hint {A} : script A -> hintT := slack_hint 0 (Some 0).
 
 Inductive xcase :=
 | XRelay (a : srcN)                       (* stream, stream_compat, either: the wrapped source *)
+| XSource (xs : list N)                   (* iter, once, empty: a fused source that never pends *)
 | XStreamReady (a : srcN)
 | XFlatMapStream (g : stN) (a : srcN)
 | XFlattenStream (a : srcOf (script N))
@@ -42,6 +43,7 @@ Inductive xcase :=
 Definition xrun (c : xcase) (n : nat) : trace :=
   match c with
   | XRelay a => conv VN (polls (src_m (sh a)) n (s_scr a))
+  | XSource xs => conv VN (polls (src_m exact_hint) n (map (@Rdy N) xs))
   | XStreamReady a => conv VN (polls (sready_m (sh a)) n (s_scr a))
   | XFlatMapStream g a => conv VN (polls (fms_m (ev_st g) exact_hint) n (None, s_scr a))
   | XFlattenStream a => conv VN (polls (fms_m (fun s : script N => s) exact_hint) n (None, s_scr a))
@@ -52,6 +54,7 @@ Definition xrun (c : xcase) (n : nat) : trace :=
 Definition xref (c : xcase) : list val :=
   match c with
   | XRelay a => map VN (items (s_scr a))
+  | XSource xs => map VN xs
   | XStreamReady a => map VN (items_now (s_scr a))
   | XFlatMapStream g a => map VN (flat_map (fun x => items (ev_st g x)) (items (s_scr a)))
   | XFlattenStream a => map VN (flat_map (fun s => items s) (items (s_scr a)))
@@ -63,6 +66,7 @@ Definition xfused (c : xcase) : bool :=
   match c with
   | XFlatMapStream _ a | XFilterMapAsync _ a => fused_b (s_scr a)
   | XFlattenStream a => fused_b (s_scr a)
+  | XSource _ => true                      (* Iter over a fused iterator, Once, Empty: fuse_self *)
   | _ => false
   end.
 
